@@ -87,6 +87,11 @@ def clip : Nat → Poly α → Bool → List Nat → List Nat
 /-- private `triangulate` -/
 def triangulate (poly : Poly α) : List Nat := clip poly.length poly (refCcw poly) []
 
+/-- private `triangulate` with its own panics made explicit: it computes `polygon.len() - 2` and reads
+`polygon[0]`, so fewer than two vertices never return (the public entry points assert more than three) -/
+def triangulateChecked (poly : Poly α) : Option (List Nat) :=
+  if poly.length < 2 then none else some (triangulate poly)
+
 def indexed (vs : List (Pt2 α)) : Poly α := (List.range vs.length).zip vs
 
 /-- `assert!(vertices.len() > 3)`: `none` models the panic -/
